@@ -736,6 +736,11 @@ func (obj *SparseInt64MatrixJointIterator) Ok() bool {
          !(obj.s2 == nil || obj.s2.GetInt64() == int64(0))
 }
 func (obj *SparseInt64MatrixJointIterator) Next() {
+  // skip positions where both operands hold a zero
+  for obj.next() && !obj.Ok() {
+  }
+}
+func (obj *SparseInt64MatrixJointIterator) next() bool {
   ok1 := obj.it1.Ok()
   ok2 := obj.it2.Ok()
   obj.s1.ptr = nil
@@ -763,6 +768,7 @@ func (obj *SparseInt64MatrixJointIterator) Next() {
   } else {
     obj.s2 = ConstInt64(0.0)
   }
+  return ok1 || ok2
 }
 func (obj *SparseInt64MatrixJointIterator) Get() (Scalar, ConstScalar) {
   if obj.s1.ptr == nil {
